@@ -9,7 +9,11 @@
 (* specification wanted.                                                   *)
 (*                                                                         *)
 (* Record (all integers):                                                  *)
-(*   kind "rect" | "delaunay", id, sub (per image pixel), pos (ticks, one  *)
+(*   kind "rect" | "delaunay", id, scales (the exponents k of the tick     *)
+(*   lengths tau*2^k at which the instance was realised with this very     *)
+(*   result: nothing below takes the scale as an argument, which is the    *)
+(*   claim that the result does not depend on it), sub (per image pixel),  *)
+(*   pos (ticks, one                                                       *)
 (*   <<y,x>> per sub-pixel), fine (<<dy,dx>> per sub-pixel) and E: the     *)
 (*   position is pos + fine/E (an exact dyadic offset; fine = 0 for a      *)
 (*   plain lattice point), P (source pixels), my, mx | V, simp,            *)
@@ -34,6 +38,7 @@ Prefix(s, n) == SubSeq(s, 1, n)
 
 \* ---- shape of the record (so that a malformed output is a rejection, not an evaluation error) ------------
 InputOk(r) ==
+    /\ Len(r.scales) >= 1 /\ \A k \in DOMAIN r.scales : r.scales[k] \in -128 .. 128
     /\ \A k \in DOMAIN r.sub : r.sub[k] \in 1 .. 4
     /\ Len(r.pos) = NSub(r.sub) /\ \A q \in DOMAIN r.pos : Len(r.pos[q]) = 2
     /\ Len(r.fine) = Len(r.pos) /\ (\A q \in DOMAIN r.fine : Len(r.fine[q]) = 2) /\ r.E \in {1, 65536}
